@@ -1133,11 +1133,10 @@ impl<T: PackedInt> IntVec<T> {
         let mut max_delta = 0u64;
         let mut valid_delta = true;
 
-        // Sample every 16th delta for fast analysis
-        let sample_step = (values.len() / 16).max(1);
-        
-        for i in (sample_step..values.len()).step_by(sample_step) {
-            if let Some(delta) = values[i].checked_sub(values[i-sample_step]) {
+        // Every adjacent delta is written with delta_width bits, so the width has to
+        // cover all of them: a sampled scan misses a large delta in the unsampled tail
+        for i in 1..values.len() {
+            if let Some(delta) = values[i].checked_sub(values[i-1]) {
                 max_delta = max_delta.max(delta);
             } else {
                 valid_delta = false;
